@@ -57,7 +57,7 @@ GenKinds(t) == IF Shape # "poly" THEN {"point", "point", "point", "point", "poin
 GenOf(kinds, a, n) == LET mk(k, d, t) == [k |-> k, v |-> IF k \in {"point", "cpoint"}
                                    THEN Mat(<<d>> \o [i \in 1..n |-> d * a[i] + RE(-1..1)])
                                    ELSE Mat(<<0>> \o (IF n > 0 /\ \A i \in 1..n : t[i] = 0 THEN [i \in 1..n |-> IF i = 1 THEN 1 ELSE 0] ELSE t))]
-                     IN CHOOSE g \in {mk(k, d, t) : k \in {RE(kinds)}, d \in {RE({1, 1, 2})}, t \in {Vec(n)}} : TRUE
+                     IN CHOOSE g \in {mk(k, d, t) : k \in {RE(kinds)}, d \in {IF Shape = "poly" THEN RE({1, 1, 2}) ELSE RE({1, 1, 2, 16})}, t \in {Vec(n)}} : TRUE
 GenFor(s, n) == GenOf(GenKinds(topo[s]), anchor[IF ShareNow THEN 1 ELSE s], n)
 PointFor(s, n) == [k |-> "point", v |-> Mat(<<1>> \o [i \in 1..n |-> anchor[IF ShareNow THEN 1 ELSE s][i] + RE(-1..1)])]
 Emit(rec) == prog' = Append(prog, rec)
@@ -94,7 +94,8 @@ DimOther == {"unconstrain", "unconstrain_set", "map_dims"}
 AllOps == CtorOps \cup UnObs \cup VarObs \cup ExprObs \cup BinObs \cup ConOps \cup ConsOps \cup GenOps \cup GensOps \cup CgOps \cup CgsOps
           \cup BinMut \cup WidOps \cup PoolOps \cup UnMut \cup ImgOps \cup LhsOps \cup DimUp \cup DimDown \cup DimOther
 DriverOps == {"min_constraints", "min_generators", "constraints", "generators", "add_generator", "add_constraint", "is_empty", "contains", "equals", "add_generators", "add_constraints"}
-ShapeDrivers == {"min_constraints", "constraints", "add_constraint", "refine_with_constraint", "is_empty", "contains", "equals", "refine_with_constraints", "is_universe"}
+\* (dump / load is also a state driver: it rebuilds the element from text -- with divisor 16 above, from fractions below 1/10 as well)
+ShapeDrivers == {"min_constraints", "constraints", "add_constraint", "refine_with_constraint", "is_empty", "contains", "equals", "refine_with_constraints", "is_universe", "dumpload"}
 \* minimized_constraints() is the call that moves a weakly relational element into its reduced internal state: it is drawn half of the time
 PsetDrivers == {"add_disjunct", "add_disjunct", "add_disjunct_gs", "omega_reduce", "pairwise_reduce", "size", "is_empty", "contains", "geometrically_covers", "copy_from", "add_constraint"}
 \* products (Shape = "prod"): the drivers feed both components, proper congruences included, and read them back (reading reduces)
